@@ -1,4 +1,4 @@
-"""C12 — freq_response / cascade / parallel / dft / FIR time domain.
+"""C12 — freq_response / cascade / parallel / dft / FIR time domain / histories of mutable banks.
 
 Tie (float regime): the impl computes with Python complex floats, the Lean model with exact
 Gaussian rationals.  The comparison is driven from the exact side: points w = e^{-j omega} on the
@@ -8,6 +8,18 @@ compared with the exact value under 1e-9*(1+|H|); cases whose a-priori rounding 
 2e-10 (small denominator / large coefficients) are regenerated, and a case reaching compare() with
 such a bound is not compared (counted as ill-conditioned).  The impulse responses and int-valued
 FIR runs are compared exactly.
+
+Histories (entry "hist"): CascadeFilter / ParallelFilter are python lists.  A case is a small heap of
+objects (banks first, then filters; a bank's members are references, the same object may sit in
+several banks or twice in one) and 2..8 (thorough ..12) steps: list operations on one of the banks
+(setitem, append, insert, extend, +=, *=, pop, del, slice assignment / deletion, reverse, clear,
+swap; a few with an index out of range) interleaved with at least two uses (freq_response through
+a container at frequencies shared between the uses, numpoly/denpoly evaluated at such points,
+is_lti(), calling the bank on a signal).  The impl runs the steps on the real objects and reports,
+per step, the identity of the members of the changed list resp. the values of the use; the Lean
+side runs the list semantics on the heap and answers every use for the snapshot of the bank at
+that moment (model = Bank.resp / the FIR loop, spec = Bank.spec / convolution).  EVERY step is
+compared.
 """
 import json
 import math
@@ -26,9 +38,16 @@ RULE = ("filters ZFilter/LinearFilter(b, a) and z-expressions with small int / d
         "(omega = atan2 float, optionally wrapped to [0, 2pi)) incl. 0, pi, +-pi/2, through every frequency container "
         "kind; flat cascade/parallel banks of 0..4 filters and nested bank trees (depth <= 2 quick, 3 thorough, raw "
         "list members, both constructor forms); dft of int/Fraction/complex blocks; FIR runs of impulses, int signals "
-        "and complex exponentials; an exhaustive grid of all b, a in {-1,0,1,2}^(<=2).  Non-trivial = the impl returned "
+        "and complex exponentials; an exhaustive grid of all b, a in {-1,0,1,2}^(<=2); histories of 2..8 (thorough ..12) "
+        "steps over a heap of 1..3 (nested, shared) banks and 2..5 filters: in-place list operations (13 kinds, on the "
+        "root or through an inner reference) interleaved with >= 2 uses (freq_response / numpoly,denpoly / is_lti / "
+        "call), at least one list operation between the first and the last use, frequencies shared between the uses, "
+        "every step compared.  Non-trivial = the impl returned "
         "at least one finite non-zero value, a predicted nan or a predicted exception; distinct = distinct JSON case")
 TRUSTED = [
+    "histories: hand-written Lean model of python's list operations on a heap of banks (pyIndex / pyClamp / slice "
+    "bounds; `bank *= k` binds a NEW bank because FilterList defines __mul__) — validated step by step against the "
+    "identity of the members of the real lists; uses are answered on the snapshot (Bank.resp / FIR loop)",
     "hand-written Lean model ALV/Model/C12.lean of LinearFilter.__init__/freq_response, Poly.__call__ (number argument), "
     "Cascade/ParallelFilter.freq_response, dft and the FIR instance of the generated filter loop (modelled, not verified)",
     "mapping omega <-> w = exp(-j omega) of the probe points is computed by the harness (math.atan2, float); "
@@ -37,6 +56,10 @@ TRUSTED = [
     "cmath.exp / complex arithmetic rounding is bounded a priori per case, not modelled",
 ]
 ASSUMPTIONS = [
+    "histories: numpoly/denpoly are compared (as the ratio at the probe points) only where the pair is defined and "
+    "consistent: cascades, and parallel banks of plain filters of which at most one has a denominator other than 1 "
+    "(ParallelFilter.numpoly/denpoly of equal denominators is the inconsistent pair recorded under C05); calling a "
+    "bank is compared where every leaf is FIR with int/dyadic coefficients (exact); heaps are acyclic",
     "denominator bounded away from zero at the probed frequency (a-priori rounding bound <= 2e-10), except the exact "
     "nan case: denominator exactly zero at omega = 0 (w = 1 is the only point of the circle that floats hit exactly)",
     "frequency containers: scalar, list, tuple, deque, set, frozenset, Stream (finite and endless), generator, map, range; "
@@ -44,10 +67,12 @@ ASSUMPTIONS = [
 ]
 
 MANIFEST = {
-    "text": ("Lean 4 theorems (30, no sorry/axiom) about a hand-written executable model of freq_response "
+    "text": ("Lean 4 theorems (37, no sorry/axiom) about a hand-written executable model of freq_response "
              "(LinearFilter.__init__ normalisation, Poly.__call__ paths, nan test), Cascade/Parallel banks to any "
              "nesting depth, dft and the FIR instance of the generated filter loop: transfer function in every field "
-             "and over C at w = exp(-j omega), cascade = product, parallel = sum, FIR loop = convolution, "
+             "and over C at w = exp(-j omega), cascade = product, parallel = sum — for the bank as it is NOW after any "
+             "history of in-place list operations and uses on a heap of nested / shared banks (uses are pure and "
+             "depend only on the snapshot) —, FIR loop = convolution, "
              "DFT(impulse response) = freq_response, steady state / transient of complex exponentials, dft sum / "
              "linearity / DC mean, and the cast Q[i] -> C of the executable evaluator; tied to /repo by a differential "
              "correspondence in the float regime (exact Gaussian-rational value vs impl float, a-priori rounding bound)"),
@@ -59,6 +84,8 @@ MANIFEST = {
 
 TOL = 1e-9
 BOUND = 2e-10
+N_HIST_QUICK = 2000
+N_HIST_THOROUGH = 16000
 
 
 # ----------------------------------------------------------------------------
@@ -487,6 +514,401 @@ def gen_expo(rng, maxlen, big):
     return {"entry": "expo", "b": b, "ctype": ctype, "u": genc(u), "len": len(b) + rng.randint(0, 8)}
 
 
+
+# ----------------------------------------------------------------------------
+# bank histories: banks are mutable python lists
+# ----------------------------------------------------------------------------
+MUT_OPS = ("setitem", "append", "insert", "extend", "iadd", "imul", "pop", "delitem", "setslice", "delslice",
+           "reverse", "clear", "swap")
+USE_OPS = ("freq", "polys", "is_lti", "call")
+
+
+def is_bank(o):
+    return "cascade" in o or "parallel" in o
+
+
+def bank_key(o):
+    return "cascade" if "cascade" in o else "parallel"
+
+
+def op_refs(o):
+    """heap references an operation puts into a list"""
+    if o["op"] in ("setitem", "append", "insert"):
+        return [o["x"]]
+    if o["op"] in ("extend", "iadd", "setslice"):
+        return list(o["xs"])
+    return []
+
+
+def list_apply(l, o):
+    """the operation on a plain python list of references (python's own list is the oracle of the
+    generator; the expected values of the check come from the Lean model)"""
+    k = o["op"]
+    if k == "setitem":
+        l[o["i"]] = o["x"]
+    elif k == "append":
+        l.append(o["x"])
+    elif k == "insert":
+        l.insert(o["i"], o["x"])
+    elif k == "extend":
+        l.extend(o["xs"])
+    elif k == "iadd":
+        l += list(o["xs"])
+    elif k == "imul":
+        pass            # `bank *= k` binds a NEW bank (FilterList defines __mul__): the list object is unchanged
+    elif k == "pop":
+        if o.get("i") is None:
+            l.pop()
+        else:
+            l.pop(o["i"])
+    elif k == "delitem":
+        del l[o["i"]]
+    elif k == "setslice":
+        l[o.get("i"):o.get("j")] = list(o["xs"])
+    elif k == "delslice":
+        del l[o.get("i"):o.get("j")]
+    elif k == "reverse":
+        l.reverse()
+    elif k == "clear":
+        del l[:]
+    elif k == "swap":
+        l[o["i"]], l[o["j"]] = l[o["j"]], l[o["i"]]
+    else:
+        raise ValueError(k)
+
+
+def hist_valid(c):
+    """references exist, banks only hold leaves and banks of higher index (acyclic), leaves are filters"""
+    objs = c["objs"]
+    n = len(objs)
+    if n == 0 or not is_bank(objs[0]):
+        return False
+    for t, o in enumerate(objs):
+        if is_bank(o):
+            for r in o[bank_key(o)]:
+                if not (0 <= r < n) or (is_bank(objs[r]) and r <= t):
+                    return False
+        elif not o["a"] or all(gdec(x) == (0, 0) for x in o["a"]):
+            return False
+    for o in c["ops"]:
+        t = o["t"]
+        if not (0 <= t < n) or not is_bank(objs[t]):
+            return False
+        for r in op_refs(o):
+            if not (0 <= r < n) or (is_bank(objs[r]) and r <= t):
+                return False
+    return True
+
+
+def heap_snapshot(objs, members, t, depth=0):
+    """the tree reachable from object t (tree-case format of `tree_eval` / `build_tree`)"""
+    o = objs[t]
+    if not is_bank(o):
+        return o
+    if depth > len(objs):
+        return None
+    ms = [heap_snapshot(objs, members, r, depth + 1) for r in members[t]]
+    if any(m is None for m in ms):
+        return None
+    return {bank_key(o): ms}
+
+
+_SIM = {}
+
+
+def hist_sim(c):
+    """per step: the snapshot tree of the target (use steps) or None (list operations)"""
+    k = json.dumps(c, sort_keys=True)
+    r = _SIM.get(k)
+    if r is None:
+        if len(_SIM) > 4000:
+            _SIM.clear()
+        r = _SIM[k] = _hist_sim(c)
+    return r
+
+
+def _hist_sim(c):
+    objs = c["objs"]
+    members = dict((t, list(o[bank_key(o)])) for t, o in enumerate(objs) if is_bank(o))
+    out = []
+    for o in c["ops"]:
+        if o["op"] in USE_OPS:
+            out.append(heap_snapshot(objs, members, o["t"]))
+        else:
+            try:
+                list_apply(members[o["t"]], o)
+            except IndexError:
+                pass
+            out.append(None)
+    return out
+
+
+def tree_all(tree, pred):
+    if is_bank(tree):
+        return all(tree_all(m, pred) for m in tree[bank_key(tree)])
+    return pred(tree)
+
+
+def call_bits(tree):
+    """(bits an output sample may need per input bit, some leaf works in floats) of an all-FIR bank"""
+    if not is_bank(tree):
+        fl = tree.get("ctype", "int") == "dyadic"
+        n1 = sum(abs(dec(x)) for x in tree["b"])
+        return (math.log2(max(1.0, float(n1))) + (3 if fl else 0), fl)
+    rs = [call_bits(m) for m in tree[bank_key(tree)]]
+    fl = any(r[1] for r in rs)
+    if "cascade" in tree:
+        return (sum(r[0] for r in rs), fl)
+    return (max([r[0] for r in rs] + [0]) + math.log2(max(1, len(rs))), fl)
+
+
+def fir_exact(tree):
+    """every leaf is FIR with exactly represented coefficients and the run stays exact (python ints,
+    or floats that never need more than 53 bits): calling the bank is modelled, exactly"""
+    if not tree_all(tree, lambda f: f["a"] == [1] and f.get("ctype", "int") in ("int", "dyadic")):
+        return False
+    bits, fl = call_bits(tree)
+    return (not fl) or bits + 5 <= 52
+
+
+def poly_safe(tree):
+    """numpoly / denpoly of the bank are defined and consistent: cascades of anything safe; a parallel
+    bank only over plain filters of which at most one has a denominator other than 1 (the sum of two
+    filters with EQUAL denominators takes a shortcut that makes ParallelFilter.numpoly / .denpoly an
+    inconsistent pair — recorded under C05, not a C12 matter)"""
+    if not is_bank(tree):
+        return True
+    ms = tree[bank_key(tree)]
+    if "cascade" in tree:
+        return all(poly_safe(m) for m in ms)
+    return (all(not is_bank(m) and not m.get("raw") for m in ms) and
+            sum(1 for m in ms if m["a"] != [1]) <= 1)
+
+
+def poly_cond(tree, w):
+    """exact values and 1-norm bounds of the EXPANDED numerator / denominator polynomials of a
+    poly_safe bank at w (|w| = 1): (N(w), D(w), bound on sum|num coeffs|, bound on sum|den coeffs|, leaves).
+    numpoly / denpoly are products / sums of products computed by the impl in floats: every
+    coefficient carries a rounding error relative to the 1-norm bound, not to the value."""
+    if not is_bank(tree):
+        b, a = filt_terms(tree)
+        return (gterms(b, w), gterms(a, w), sum(gabs(c) for _, c in b), sum(gabs(c) for _, c in a), 1)
+    rs = [poly_cond(m, w) for m in tree[bank_key(tree)]]
+    N, D, Nn, Dn, m = (F(1), F(0)), (F(1), F(0)), 1.0, 1.0, 0
+    if "cascade" in tree:
+        for r in rs:
+            N, D, Nn, Dn, m = gmul(N, r[0]), gmul(D, r[1]), Nn * r[2], Dn * r[3], m + r[4]
+        return (N, D, Nn, Dn, m)
+    N, Nn = (F(0), F(0)), 0.0
+    for i, r in enumerate(rs):
+        t, tn = r[0], r[2]
+        for j, r2 in enumerate(rs):
+            if j != i:
+                t, tn = gmul(t, r2[1]), tn * r2[3]
+        N, Nn = gadd(N, t), Nn + tn
+        D, Dn, m = gmul(D, r[1]), Dn * r[3], m + r[4]
+    return (N, D, Nn, Dn, m)
+
+
+def polys_ok(tree, pts):
+    """numpoly(w)/denpoly(w) is compared at these points: defined pair, a value (no pole, no exception)
+    at every point and the float error of the expanded coefficients a-priori below BOUND*(1+|H|)"""
+    if not poly_safe(tree):
+        return False
+    for w in pts:
+        r = tree_eval(tree, w)
+        if r[0] == "none":
+            continue                      # TypeError of an empty bank: nothing numeric
+        if r[0] != "val":
+            return False
+        N, D, Nn, Dn, m = poly_cond(tree, w)
+        Dm = gabs(D)
+        if Dm == 0:
+            return False
+        g = 1e-15 * 8 * (m + 1)
+        H = gabs(r[1])
+        if g * Dn >= 0.01 * Dm or (g * Nn + H * g * Dn) / Dm > BOUND * (1 + H):
+            return False
+    return True
+
+
+def hist_step_ok(o, snap):
+    """is the step compared numerically?  (well conditioned snapshot at the probed points)"""
+    if snap is None:
+        return False
+    if o["op"] == "freq":
+        return tree_ok(snap, [gdec_pt(p) for p in o["pts"]])
+    if o["op"] == "polys":
+        pts = [gdec_pt(p) for p in o["pts"]]
+        return bool(pts) and tree_ok(snap, pts) and polys_ok(snap, pts)
+    return True
+
+
+def hist_leaf(rng, maxlen, fir):
+    if fir:
+        f = {"b": rand_coeffs(rng, "int", maxlen, 1), "a": [1], "ctype": "int"}
+        if rng.random() < 0.3:
+            f["ctype"] = "dyadic"
+            f["b"] = rand_coeffs(rng, "dyadic", maxlen, 1)
+    else:
+        f = gen_filter(rng, maxlen, pole0=rng.random() < 0.04)
+        if all(gdec(x) == (0, 0) for x in f["a"]):
+            f["a"][0] = 1
+    if f["a"] == [1] and rng.random() < 0.2:
+        f["raw"] = True
+    return f
+
+
+def hist_pattern(rng, L):
+    while True:
+        pat = ["q" if rng.random() < (0.6 if i == 0 else 0.35) else "m" for i in range(L - 1)] + ["q"]
+        qs = [i for i, x in enumerate(pat) if x == "q"]
+        if len(qs) < 2:
+            continue
+        if L >= 3 and "m" not in pat[qs[0]:qs[-1]]:
+            continue
+        return pat
+
+
+def hist_mut_op(rng, t, cur, allowed):
+    """one list operation on bank t whose list is `cur` now"""
+    n = len(cur)
+    kind = rng.choice(["setitem"] * 30 + ["swap"] * 5 + ["reverse"] * 5 + ["setslice"] * 10 + ["delslice"] * 4 +
+                      ["append"] * 8 + ["insert"] * 8 + ["extend"] * 5 + ["iadd"] * 6 + ["imul"] * 4 + ["pop"] * 8 +
+                      ["delitem"] * 6 + ["clear"] * 2)
+    if n == 0 and kind in ("setitem", "swap", "pop", "delitem", "reverse", "imul", "delslice", "clear") \
+            and rng.random() < 0.85:
+        kind = rng.choice(["append", "extend", "iadd", "insert", "setslice"])
+    if n >= 5 and kind in ("append", "insert", "extend", "iadd", "imul"):
+        kind = rng.choice(["setitem", "pop", "delitem", "delslice", "swap"])
+
+    def idx():
+        if n and rng.random() < 0.93:
+            return rng.randrange(-n, n)
+        return rng.choice([n, -n - 1, n + 2])
+
+    def ref(avoid=None):
+        xs = [r for r in allowed if r != avoid] or allowed
+        return rng.choice(xs)
+    o = {"op": kind, "t": t}
+    if kind == "setitem":
+        o["i"] = idx()
+        old = cur[o["i"]] if -n <= o["i"] < n else None
+        o["x"] = ref(old if rng.random() < 0.9 else None)
+    elif kind == "swap":
+        o["i"], o["j"] = idx(), idx()
+    elif kind == "append":
+        o["x"] = ref()
+    elif kind == "insert":
+        o["i"] = rng.randint(-n - 2, n + 2)
+        o["x"] = ref()
+    elif kind in ("extend", "iadd"):
+        o["xs"] = [ref() for _ in range(rng.choice([0, 1, 1, 2]))]
+    elif kind == "imul":
+        k = rng.choice([0, 1, 2, 2, -1, 3])
+        o["k"] = k if n * k <= 6 else 1
+    elif kind == "pop":
+        o["i"] = None if rng.random() < 0.5 else idx()
+    elif kind == "delitem":
+        o["i"] = idx()
+    elif kind in ("setslice", "delslice"):
+        if n and rng.random() < 0.55:
+            lo = rng.randrange(0, n)
+            hi = rng.randint(lo + 1, min(n, lo + 2))
+            i, j = lo, hi
+            if rng.random() < 0.3:
+                i -= n
+            if rng.random() < 0.3:
+                j = j - n if j < n else None
+            if kind == "setslice":
+                o["xs"] = [ref(cur[lo + d]) for d in range(hi - lo)]         # same size: replaced in place
+        else:
+            i = rng.choice([None, rng.randint(-n - 1, n + 1)])
+            j = rng.choice([None, rng.randint(-n - 1, n + 1)])
+            if kind == "setslice":
+                o["xs"] = [ref() for _ in range(rng.choice([0, 1, 2, 3]))]
+        o["i"], o["j"] = i, j
+    return o
+
+
+HIST_KINDS = ["scalar", "scalar", "list", "tuple", "gen", "stream", "deque"]
+
+
+def hist_use_op(rng, t, snap, pool, big, earlier=()):
+    kind = rng.choice(["freq"] * 60 + ["polys"] * 15 + ["is_lti"] * 8 + ["call"] * 17)
+    if earlier and rng.random() < 0.4:
+        kind = rng.choice(earlier)          # the same kind of use before and after a change
+    if kind == "call" and not (snap is not None and fir_exact(snap)):
+        kind = "freq"
+    o = {"op": kind, "t": t}
+    if kind == "freq":
+        o["kind"] = rng.choice(HIST_KINDS)
+    if kind in ("freq", "polys"):
+        if o.get("kind") == "scalar":
+            pts = [rng.choice(pool)]
+        else:
+            pts = [p for p in pool if rng.random() < 0.7] or [rng.choice(pool)]
+            if rng.random() < 0.1:
+                pts = pts + [rand_point(rng, big)]
+        if kind == "polys" and not (snap is not None and polys_ok(snap, pts)):
+            o["op"] = kind = "freq"
+            o["kind"] = "list"
+        o["pts"] = [genc(w) for w in pts]
+    if kind == "call":
+        if rng.random() < 0.5:
+            o["xs"] = [1] + [0] * rng.randint(2, 7)
+        else:
+            o["xs"] = [rng.randint(-5, 5) for _ in range(rng.randint(0, 8))]
+    return o
+
+
+def gen_hist_once(rng, maxlen, big):
+    fir = rng.random() < 0.35
+    nb = rng.choice([1, 1, 2, 2, 3])
+    nl = rng.randint(2, 5)
+    n = nb + nl
+    leaves = list(range(nb, n))
+    objs = []
+    for t in range(nb):
+        allowed = leaves + list(range(t + 1, nb))
+        k = rng.choice([1, 2, 2, 3, 3]) if rng.random() < 0.94 else 0
+        objs.append({rng.choice(["cascade", "parallel"]): [rng.choice(allowed) for _ in range(k)]})
+    for j in range(1, nb):
+        if rng.random() < 0.85 and not any(j in objs[t][bank_key(objs[t])] for t in range(j)):
+            t = rng.randrange(0, j)
+            ms = objs[t][bank_key(objs[t])]
+            ms.insert(rng.randint(0, len(ms)), j)
+    objs += [hist_leaf(rng, min(maxlen, 4), fir) for _ in range(nl)]
+    L = rng.randint(2, 12 if big else 8)
+    pat = hist_pattern(rng, L)
+    pool = [rand_point(rng, big) for _ in range(rng.choice([1, 2, 2, 3]))]
+    members = dict((t, list(objs[t][bank_key(objs[t])])) for t in range(nb))
+    ops = []
+    for x in pat:
+        if x == "m":
+            t = 0 if (nb == 1 or rng.random() < 0.65) else rng.randrange(1, nb)
+            o = hist_mut_op(rng, t, members[t], leaves + list(range(t + 1, nb)))
+            try:
+                list_apply(members[t], o)
+            except IndexError:
+                pass
+        else:
+            t = 0 if rng.random() < 0.85 else rng.randrange(0, nb)
+            o = hist_use_op(rng, t, heap_snapshot(objs, members, t), pool, big,
+                            [u["op"] for u in ops if u["op"] in USE_OPS and u["op"] != "is_lti"])
+        ops.append(o)
+    return {"entry": "hist", "objs": objs, "ops": ops, "wrap": rng.random() < 0.5}
+
+
+def gen_hist(rng, maxlen, big):
+    for _ in range(60):
+        c = gen_hist_once(rng, maxlen, big)
+        snaps = _hist_sim(c)
+        if all(hist_step_ok(o, s) for o, s in zip(c["ops"], snaps) if o["op"] in USE_OPS):
+            return c
+    return None
+
+
 def malformed(rng):
     out = []
     for a in ([0], [0, 0], []):
@@ -541,6 +963,10 @@ def generate(rng, tier, scale=1):
             c = g(rng, (maxlen if g is not gen_dft else (16 if quick else 48)), big)
             if c is not None:
                 cases.append(c)
+    for _ in range((N_HIST_QUICK if quick else N_HIST_THOROUGH) * scale):
+        c = gen_hist(rng, maxlen, big)
+        if c is not None:
+            cases.append(c)
     return cases
 
 
@@ -623,11 +1049,121 @@ def mk_filter(f, cls="ZFilter"):
     return getattr(audiolazy, cls)(b, a)
 
 
+
+def poly_at(poly, w):
+    """exact value of an impl Poly at the Gaussian rational point w (|w| = 1); coefficients are
+    int / float (a float is a dyadic rational) / Fraction / complex"""
+    ts = []
+    for k, v in poly.terms():
+        v = complex(v) if isinstance(v, complex) else v
+        if isinstance(v, complex):
+            cv = (F(v.real), F(v.imag))
+        else:
+            cv = (F(v), F(0))
+        ts.append((int(k), cv))
+    return gterms(ts, w), sum(gabs(cv) for _, cv in ts)
+
+
+def impl_hist(c):
+    from audiolazy import CascadeFilter, ParallelFilter
+    if not hist_valid(c):
+        return {"invalid": True}
+    objs = [None] * len(c["objs"])
+    try:
+        for t in range(len(objs) - 1, -1, -1):
+            o = c["objs"][t]
+            if is_bank(o):
+                cls = CascadeFilter if "cascade" in o else ParallelFilter
+                objs[t] = cls([objs[r] for r in o[bank_key(o)]])
+            elif o.get("raw"):
+                objs[t] = [py_coeff(x, o.get("ctype", "int")) for x in o["b"]]
+            else:
+                objs[t] = mk_filter(o)
+    except Exception as ex:
+        return {"invalid": True, "err": err_kind(ex)}
+    ids = dict((id(x), t) for t, x in enumerate(objs))
+    wrap = c.get("wrap", False)
+
+    def members(bank):
+        return [ids.get(id(m), -1) for m in bank]
+    steps = []
+    for o in c["ops"]:
+        bank = objs[o["t"]]
+        k = o["op"]
+        try:
+            if k == "setitem":
+                bank[o["i"]] = objs[o["x"]]
+            elif k == "append":
+                bank.append(objs[o["x"]])
+            elif k == "insert":
+                bank.insert(o["i"], objs[o["x"]])
+            elif k == "extend":
+                bank.extend([objs[r] for r in o["xs"]])
+            elif k == "iadd":
+                b2 = bank
+                b2 += [objs[r] for r in o["xs"]]
+                if b2 is not bank:
+                    steps.append({"err": "NotInPlace"})
+                    continue
+            elif k == "imul":
+                b2 = bank
+                b2 *= o["k"]
+                steps.append({"fresh": members(b2), "members": members(bank)})
+                continue
+            elif k == "pop":
+                x = bank.pop() if o.get("i") is None else bank.pop(o["i"])
+                steps.append({"popped": ids.get(id(x), -1), "members": members(bank)})
+                continue
+            elif k == "delitem":
+                del bank[o["i"]]
+            elif k == "setslice":
+                bank[o.get("i"):o.get("j")] = [objs[r] for r in o["xs"]]
+            elif k == "delslice":
+                del bank[o.get("i"):o.get("j")]
+            elif k == "reverse":
+                bank.reverse()
+            elif k == "clear":
+                del bank[:]
+            elif k == "swap":
+                bank[o["i"]], bank[o["j"]] = bank[o["j"]], bank[o["i"]]
+            elif k == "freq":
+                oms = [omega_of(gdec_pt(p), wrap) for p in o["pts"]]
+                steps.append(observe(o["kind"], bank.freq_response(container(o["kind"], oms)), len(oms)))
+                continue
+            elif k == "polys":
+                num, den = bank.numpoly, bank.denpoly
+                vals = []
+                for p in o["pts"]:
+                    w = gdec_pt(p)
+                    nv, _ = poly_at(num, w)
+                    dv, _ = poly_at(den, w)
+                    if dv == (0, 0):
+                        vals.append("nan")
+                    else:
+                        vals.append(genc(gdiv(nv, dv)))
+                steps.append({"kind": "list", "vals": vals})
+                continue
+            elif k == "is_lti":
+                steps.append({"bool": bool(bank.is_lti())})
+                continue
+            elif k == "call":
+                steps.append({"out": [cnum(v) for v in bank(list(o["xs"]), zero=0)]})
+                continue
+            else:
+                raise ValueError("unknown op")
+            steps.append({"members": members(bank)})
+        except Exception as ex:
+            steps.append({"err": err_kind(ex)})
+    return {"steps": steps}
+
+
 def impl(c):
     import audiolazy
     from audiolazy import ZFilter, CascadeFilter, ParallelFilter, dft
     try:
         e = c["entry"]
+        if e == "hist":
+            return impl_hist(c)
         if e == "freq":
             filt = mk_filter(c, c.get("cls", "ZFilter"))
             oms = omegas(c)
@@ -690,6 +1226,15 @@ def request(c):
         return {"entry": "fir", "b": c["b"], "xs": c["xs"], "ws": c["pts"]}
     if e == "expo":
         return {"entry": "expo", "b": c["b"], "u": c["u"], "len": c["len"]}
+    if e == "hist":
+        objs = [({bank_key(o): o[bank_key(o)]} if is_bank(o) else {"b": o["b"], "a": o["a"]}) for o in c["objs"]]
+        ops = []
+        for o in c["ops"]:
+            r = dict((k, v) for k, v in o.items() if k not in ("kind", "pts"))
+            if "pts" in o:
+                r["ws"] = o["pts"]
+            ops.append(r)
+        return {"entry": "hist", "objs": objs, "ops": ops}
     return c
 
 
@@ -776,9 +1321,53 @@ def cmp_resp(c, io, exp, label, kind_tag, out, ctor):
         out.append((kind_tag, "%s values differ from %s: impl=%r %s=%r" % (c["entry"], label, io["vals"], label, exp)))
 
 
+
+def hist_problems(c, io, drv):
+    """(kind, detail, step index) for every step of the history on which impl and Lean differ"""
+    out = []
+    if io.get("invalid") or not hist_valid(c):
+        return out
+    if "steps" not in io:
+        return [("model", "hist: impl gave %r" % (io,), -1), ("spec", "hist: impl gave %r" % (io,), -1)]
+    snaps = hist_sim(c)
+    for i, (o, si, sd, snap) in enumerate(zip(c["ops"], io["steps"], drv["steps"], snaps)):
+        k = o["op"]
+        where = "step %d (%s on object %d)" % (i, k, o["t"])
+        if sd.get("stuck"):
+            continue
+        if k in MUT_OPS:
+            if "err" in si or "err" in sd:
+                if si.get("err") != sd.get("err"):
+                    out.append(("model", "%s: impl %r, list model %r" % (where, si, sd), i))
+            elif any(si.get(x) != sd.get(x) for x in ("members", "popped", "fresh")):
+                out.append(("model", "%s: impl list %r, list model %r" % (where, si, sd), i))
+            continue
+        if not hist_step_ok(o, snap):
+            continue
+        if k in ("freq", "polys"):
+            pc = {"entry": where, "kind": o.get("kind", "list")}
+            for tag in ("model", "spec"):
+                sub = []
+                cmp_resp(pc, si, sd[tag], tag, tag, sub, False)
+                out.extend((a, b, i) for a, b in sub)
+        elif k == "is_lti":
+            for tag in ("model", "spec"):
+                if si.get("bool") != sd[tag]:
+                    out.append((tag, "%s: impl %r, %s %r" % (where, si, tag, sd[tag]), i))
+        elif k == "call":
+            if sd["model"] is None or not fir_exact(snap):
+                continue
+            for tag in ("model", "spec"):
+                if "out" not in si or not lclose(si["out"], sd[tag], 0):
+                    out.append((tag, "%s: bank(xs) = %r, %s of the current bank %r" % (where, si, tag, sd[tag]), i))
+    return out
+
+
 def compare(c, io, drv):
     out = []
     e = c["entry"]
+    if e == "hist":
+        return [(a, b) for a, b, _ in hist_problems(c, io, drv)]
     if e in ("freq", "freqd", "bank", "tree"):
         if ill_conditioned(c):
             return []
@@ -828,15 +1417,71 @@ def compare(c, io, drv):
 
 
 def nontrivial(c, io):
+    if c["entry"] == "hist":
+        return any(v == "nan" or v[0] != 0 or v[1] != 0
+                   for st in io.get("steps", []) for v in (st.get("vals") or st.get("out") or []))
     if "err" in io:
         return True
     vals = io.get("vals") or io.get("out") or []
     return any(v == "nan" or v[0] != 0 or v[1] != 0 for v in vals)
 
 
+def tally_hist(eng, c, io):
+    ops = c["ops"]
+    eng.count("hist_len", len(ops))
+    eng.count("hist_uses", sum(1 for o in ops if o["op"] in USE_OPS))
+    eng.count("hist_objects", "banks=%d" % sum(1 for o in c["objs"] if is_bank(o)))
+    eng.count("hist_root", bank_key(c["objs"][0]))
+    snaps = hist_sim(c)
+    steps = io.get("steps", [])
+    last = {}
+    since = {}          # bank -> targets of the list operations since its last use
+    for i, o in enumerate(ops):
+        st = steps[i] if i < len(steps) else {}
+        k = o["op"]
+        tgt = "root" if o["t"] == 0 else "inner"
+        eng.count("hist_op", k + (":" + st["err"] if "err" in st else ""))
+        eng.count("hist_target", ("use:" if k in USE_OPS else "list-op:") + tgt)
+        if k in USE_OPS:
+            snap = snaps[i]
+            if not hist_step_ok(o, snap):
+                eng.count("hist_use_not_compared", k)
+            if k == "freq":
+                eng.count("hist_container", o["kind"])
+            if snap is not None:
+                eng.count("hist_depth_at_use", tree_depth(snap))
+                if is_bank(snap):
+                    eng.count("hist_bank_size_at_use", min(len(snap[bank_key(snap)]), 7))
+            # what happened to this bank since it was last used
+            if o["t"] in last:
+                prev = last[o["t"]]
+                if prev == snap:
+                    br = "unchanged"
+                elif snap is not None and prev is not None and is_bank(snap) and \
+                        len(prev[bank_key(prev)]) == len(snap[bank_key(snap)]):
+                    br = "changed:same-length"
+                else:
+                    br = "changed:other-length"
+                if br != "unchanged" and o["t"] not in since.get(o["t"], []):
+                    br += ":through-inner-reference"
+                eng.count("hist_since_last_use", br)
+                pts = set(json.dumps(p) for p in o.get("pts", []))
+                if br != "unchanged" and pts & last.get(("pts", o["t"]), set()):
+                    eng.count("hist_same_frequency_requeried_after_change", k)
+            last[o["t"]] = snap
+            last[("pts", o["t"])] = set(json.dumps(p) for p in o.get("pts", []))
+            since[o["t"]] = []
+        else:
+            for t in since:
+                since[t].append(o["t"])
+    eng.count("regime", "float(tol 1e-9)")
+
+
 def tally(eng, c, io):
     e = c["entry"]
     eng.count("entry", e)
+    if e == "hist":
+        return tally_hist(eng, c, io)
     if "err" in io:
         eng.count("impl_error", e + ":" + io["err"])
     if e in ("freq", "freqd", "bank", "tree"):
@@ -939,8 +1584,104 @@ def _shrink_tree(node):
             yield dict(node, form="star")
 
 
+
+def _renumber(c, k):
+    """drop object k (nobody refers to it): references above k move down"""
+    def f(r):
+        return r - 1 if r > k else r
+    objs = []
+    for t, o in enumerate(c["objs"]):
+        if t == k:
+            continue
+        objs.append({bank_key(o): [f(r) for r in o[bank_key(o)]]} if is_bank(o) else o)
+    ops = []
+    for o in c["ops"]:
+        o = dict(o, t=f(o["t"]))
+        if "x" in o:
+            o["x"] = f(o["x"])
+        if "xs" in o and o["op"] != "call":
+            o["xs"] = [f(r) for r in o["xs"]]
+        ops.append(o)
+    return dict(c, objs=objs, ops=ops)
+
+
+def shrink_hist(c):
+    ops, objs = c["ops"], c["objs"]
+    uses = sum(1 for o in ops if o["op"] in USE_OPS)
+    # 1. drop a step
+    for i, o in enumerate(ops):
+        if o["op"] not in USE_OPS or uses > 1:
+            yield dict(c, ops=ops[:i] + ops[i + 1:])
+    # 2. drop an object nobody refers to
+    used = set([0])
+    for o in objs:
+        if is_bank(o):
+            used.update(o[bank_key(o)])
+    for o in ops:
+        used.add(o["t"])
+        used.update(op_refs(o))
+    for k in range(len(objs) - 1, 0, -1):
+        if k not in used:
+            yield _renumber(c, k)
+    # 3. fewer initial members
+    for t, o in enumerate(objs):
+        if is_bank(o):
+            ms = o[bank_key(o)]
+            for i in range(len(ms)):
+                yield dict(c, objs=objs[:t] + [{bank_key(o): ms[:i] + ms[i + 1:]}] + objs[t + 1:])
+    # 4. simpler steps
+    for i, o in enumerate(ops):
+        def put(o2):
+            return dict(c, ops=ops[:i] + [o2] + ops[i + 1:])
+        if "pts" in o:
+            for j in range(len(o["pts"])):
+                if len(o["pts"]) > 1:
+                    yield put(dict(o, pts=o["pts"][:j] + o["pts"][j + 1:]))
+        if o["op"] == "freq" and o["kind"] not in ("list", "scalar"):
+            yield put(dict(o, kind="list"))
+        if o["op"] == "call":
+            for xs in _shrink_list(o["xs"]):
+                yield put(dict(o, xs=xs))
+        if o["op"] in ("extend", "iadd", "setslice"):
+            for j in range(len(o["xs"])):
+                yield put(dict(o, xs=o["xs"][:j] + o["xs"][j + 1:]))
+        if o["op"] in ("setslice", "delslice"):
+            for key in ("i", "j"):
+                if o.get(key) is not None:
+                    yield put(dict(o, **{key: None}))
+        if o["op"] in ("setitem", "insert", "delitem", "pop", "swap"):
+            for key in ("i", "j"):
+                if o.get(key) not in (None, 0):
+                    yield put(dict(o, **{key: 0}))
+        if o["t"] != 0 and o["op"] in USE_OPS:
+            yield put(dict(o, t=0))
+    if c.get("wrap"):
+        yield dict(c, wrap=False)
+    # 5. simpler filters
+    for t, o in enumerate(objs):
+        if is_bank(o):
+            continue
+        def putf(f):
+            return dict(c, objs=objs[:t] + [f] + objs[t + 1:])
+        for b in _shrink_list(o["b"]):
+            yield putf(dict(o, b=b))
+        if o.get("raw"):
+            yield putf(dict((k, v) for k, v in o.items() if k != "raw"))
+        else:
+            for a in _shrink_list(o["a"]):
+                if a and any(gdec(x) != (0, 0) for x in a):
+                    yield putf(dict(o, a=a))
+        if o.get("ctype") != "int" and all(isinstance(x, int) for x in o["b"] + o["a"]):
+            yield putf(dict(o, ctype="int"))
+
+
 def shrink(c):
     e = c["entry"]
+    if e == "hist":
+        for x in shrink_hist(c):
+            if hist_valid(x):
+                yield x
+        return
     if e in ("freq", "freqd", "bank", "tree", "dft", "fir"):
         pts = c["pts"]
         for i in range(len(pts)):
@@ -1006,6 +1747,16 @@ def shrink(c):
 def neighbours(c):
     e = c["entry"]
     others = [genc(point_from_t(1, 2)), genc(point_from_t(-1, 3)), genc(SPECIAL["pi/2"]), genc(SPECIAL["0"])]
+    if e == "hist":
+        # the same history probed by freq_response (list of two points) wherever it is used
+        for p in others[:2]:
+            yield dict(c, ops=[(dict(o, op="freq", kind="list", pts=[p, others[2]]) if o["op"] in USE_OPS else o)
+                               for o in c["ops"]])
+        # ... and used once more at the end, at the frequencies of the earlier uses
+        for o in c["ops"]:
+            if o["op"] == "freq":
+                yield dict(c, ops=c["ops"] + [dict(o, t=0)])
+        return
     if e == "freq":
         for key in ("b", "a"):
             xs = c[key]
@@ -1035,6 +1786,17 @@ def neighbours(c):
 
 def classify(c, io, drv):
     e = c["entry"]
+    if e == "hist":
+        ps = hist_problems(c, io, drv)
+        ps = [p for p in ps if p[0] == "spec"] or ps
+        if not ps or ps[0][2] < 0:
+            return "hist:raises" if ps else "hist:value"
+        i = ps[0][2]
+        o = c["ops"][i]
+        st = io["steps"][i]
+        changed = any(x["op"] in MUT_OPS for x in c["ops"][:i])
+        tag = "hist-%s:%s%s" % (bank_key(c["objs"][o["t"]]), o["op"], "-after-list-op" if changed else "")
+        return "%s:%s" % (tag, ("raises-" + st["err"]) if "err" in st else "value")
     tag = e if e != "bank" else c["bkind"]
     if e == "tree":
         tag = "tree-" + ("cascade" if "cascade" in c["tree"] else "parallel")
